@@ -40,25 +40,27 @@ theorem C02_mapProperties (virt props : List Property) :
     (mapProperties virt props).map (·.2) = virt ++ props :=
   ⟨mapProperties_fst virt props, mapProperties_snd virt props⟩
 
-/-- **Enum numbering.** Without a leading option named `…UNSPECIFIED`, the values are the
-implicit `<PREFIX>UNSPECIFIED = 0` followed by option `k` with number `k + 1`; the prefix is the
-declared one or `SCREAMING_SNAKE(name)_`; option names get the prefix unless they carry it. -/
+/-- **Enum numbering.** Without a leading explicit zero (`UNSPECIFIED` / `<PREFIX>UNSPECIFIED`),
+the values are the implicit `<PREFIX>UNSPECIFIED = 0` followed by option `k` with number `k + 1`;
+the prefix is the declared one or `SCREAMING_SNAKE(name)_`; option names get the prefix unless
+they carry it. -/
 theorem C02_enum_numbering (e : EnumDecl)
-    (h : ∀ first rest, e.opts = first :: rest → hasSuffix b!"UNSPECIFIED" first = false) :
+    (h : ∀ first rest, e.opts = first :: rest → isExplicitUnspecified (enumPrefix e) first = false) :
     (convEnum e).name = e.name ∧
     (convEnum e).values =
       (enumPrefix e ++ b!"UNSPECIFIED", 0) ::
         e.opts.zipIdx.map fun (n, i) => (enumFull (enumPrefix e) n, i + 1) :=
   ⟨rfl, enumValues_implicit _ _ h⟩
 
-/-- …with one, that option *is* value 0 and the rest are numbered from 1. -/
+/-- …with one, that option *is* value 0 (still called `<PREFIX>UNSPECIFIED`) and the rest are
+numbered from 1. -/
 theorem C02_enum_numbering_explicit_zero (e : EnumDecl) (first : Str) (rest : List Str)
-    (ho : e.opts = first :: rest) (h : hasSuffix b!"UNSPECIFIED" first = true) :
+    (ho : e.opts = first :: rest) (h : isExplicitUnspecified (enumPrefix e) first = true) :
     (convEnum e).values =
-      (enumFull (enumPrefix e) first, 0) ::
+      (enumPrefix e ++ b!"UNSPECIFIED", 0) ::
         rest.zipIdx.map fun (n, i) => (enumFull (enumPrefix e) n, i + 1) := by
   simp only [convEnum, ho]
-  exact enumValues_explicit _ _ _ h
+  rw [enumValues_explicit _ _ _ h, enumFull_explicit _ _ h]
 
 theorem C02_enum_prefix_default (e : EnumDecl) (h : e.pfx = []) :
     enumPrefix e = toScreamingSnake e.name ++ b!"_" := by
